@@ -70,6 +70,7 @@ def alphabet_ops(tier, reduced=False):
     o.append(("loadsame",))
     if reduced:
         o.append(("loadfile", "b-c 9\nq-r zz\n"))
+        o.append(("loadfile", "a-b-c 4\nb--c 2.5\n"))
         drop = {("set_varylist", ("b_c",)), ("set_varylist", ("a", "b_c")), ("set_variable_values", ()), ("set_parameters", ()), ("update_other", ("a",))}
         o = [op for op in o if op[:2] not in drop and not (op[0] == "addpar" and op[1] == "b_c" and op[3:5] == (False, True))]
     return o
@@ -396,7 +397,7 @@ def check_case(case):
             if tier == "thorough":
                 vals += [("int", v) for v in (2 ** 63, -(10 ** 309), 10 ** 400)] + [("float", v) for v in (1e-310, 2.2250738585072014e-308, 0.30000000000000004)]
             for i, (ty, v) in enumerate(vals):
-                for name in ("k", "with_underscore", "hy-phen"):
+                for name in ("k", "with_underscore", "hy-phen", "fit-tol-hkl", "-lead-and-trail-"):
                     key = "value:%s:%r:name=%s" % (ty, v, name)
                     fn = os.path.join(tmp, "v.par")
                     p = P.parameters()
